@@ -1,0 +1,7 @@
+//go:build !verif
+
+package pubsub
+
+// verifSchedPoint is a no-op schedule point used by the external verification
+// harness (build tag "verif"); without the tag it compiles to nothing.
+func verifSchedPoint(string) {}
